@@ -473,7 +473,7 @@ func (r *Run) snapshotVerdict(kind, id, msg, pos string, model map[string]*big.I
 		v.Nondet = append(v.Nondet, rec)
 	}
 	for _, d := range r.log {
-		if d.Kind == "sched" || d.Kind == "preempt" || d.Kind == "select" {
+		if d.Kind == "sched" || d.Kind == "preempt" || d.Kind == "select" || (d.Kind == "maporder" && d.Taken != 0) {
 			v.Schedule = true
 		}
 	}
